@@ -13,17 +13,26 @@ def env (legacy : Bool) : Env := { libver := LecGen.libVersion, legacy := legacy
 def sysAccessor (k m : Nat) : Option (Nat → Nat → Nat) :=
   (makeSys k m).map fun a => fun r j => a[r * k + j]!
 
-def availDefault (id : Nat) : Bool := id == 0 || id == 3 || id == 6
+/-- `cx`: is the reference libisal on the library path (environment VERIF_ISAL)? -/
+def availDefault (cx : Bool) (id : Nat) : Bool := id == 0 || id == 3 || id == 6 || (cx && (id == 4 || id == 7))
 
 /-- instance + backend record for a configuration the harness created successfully. -/
-def mkInst (be k m hd ct : Nat) : Option (Inst × Backend) :=
-  match create availDefault be k m 0 hd ct with
+def failInvert (P : IsaPrims) : IsaPrims := { P with invert := fun _ _ => none }
+
+/-- backend ids 104 / 107 in op lines: the ISA-L adapters with every matrix inversion failing. -/
+def mkInst (cx : Bool) (be k m hd ct : Nat) : Option (Inst × Backend) :=
+  let realBe := if be == 104 then 4 else if be == 107 then 7 else be
+  match create (availDefault cx) realBe k m 0 hd ct with
   | .error _ => none
   | .ok inst =>
     match be with
     | 0 => some (inst, nullBackend)
     | 3 => (LecGen.xorTableFor hd m k).map fun T => (inst, xorBackend T)
     | 6 => (sysAccessor k m).map fun G => (inst, rsBackend G k m)
+    | 4 => some (inst, isaBackend gf8PrimsVand k m (beVersion 4))
+    | 7 => some (inst, isaBackend gf8PrimsCauchy k m (beVersion 7))
+    | 104 => some (inst, isaBackend (failInvert gf8PrimsVand) k m (beVersion 4))
+    | 107 => some (inst, isaBackend (failInvert gf8PrimsCauchy) k m (beVersion 7))
     | _ => none
 
 def natList (l : List Nat) : String := if l.isEmpty then "-" else ",".intercalate (l.map toString)
@@ -42,20 +51,20 @@ def hexList (l : List String) : Option (List Bytes) := l.mapM ofHex?
 
 def b2n (b : Bool) : Nat := if b then 1 else 0
 
-def cfg? (be k m hd ct : String) : Option (Inst × Backend) := do
-  mkInst (← be.toNat?) (← k.toNat?) (← m.toNat?) (← hd.toNat?) (← ct.toNat?)
+def cfg? (cx : Bool) (be k m hd ct : String) : Option (Inst × Backend) := do
+  mkInst cx (← be.toNat?) (← k.toNat?) (← m.toNat?) (← hd.toNat?) (← ct.toNat?)
 
-def step (line : String) : String :=
+def step (cx : Bool) (line : String) : String :=
   match line.trimAscii.toString.splitOn " " with
   | ["enc", be, k, m, hd, ct, legacy, data] =>
-    match cfg? be k m hd ct, legacy.toNat?, ofHex? data with
+    match cfg? cx be k m hd ct, legacy.toNat?, ofHex? data with
     | some (inst, bk), some lg, some d =>
       match encode (env (lg != 0)) bk inst d with
       | .ok frags => s!"ok {(frags.headD []).length} " ++ " ".intercalate (frags.map toHex)
       | .error e => showFail e
     | _, _, _ => "bad-op"
   | "dec" :: be :: k :: m :: hd :: ct :: force :: fraglen :: n :: frags =>
-    match cfg? be k m hd ct, force.toNat?, fraglen.toNat?, n.toNat?, hexList frags with
+    match cfg? cx be k m hd ct, force.toNat?, fraglen.toNat?, n.toNat?, hexList frags with
     | some (inst, bk), some fo, some fl, some n, some fr =>
       if fr.length != n then "bad-op" else
       match decode (env false) bk inst fr fl (fo != 0) with
@@ -63,7 +72,7 @@ def step (line : String) : String :=
       | .error e => showFail e
     | _, _, _, _, _ => "bad-op"
   | "rec" :: be :: k :: m :: hd :: ct :: legacy :: dest :: fraglen :: n :: frags =>
-    match cfg? be k m hd ct, legacy.toNat?, dest.toInt?, fraglen.toNat?, n.toNat?, hexList frags with
+    match cfg? cx be k m hd ct, legacy.toNat?, dest.toInt?, fraglen.toNat?, n.toNat?, hexList frags with
     | some (inst, bk), some lg, some de, some fl, some n, some fr =>
       if fr.length != n then "bad-op" else
       match reconstruct (env (lg != 0)) bk inst fr fl de with
@@ -71,7 +80,7 @@ def step (line : String) : String :=
       | .error e => showFail e
     | _, _, _, _, _, _ => "bad-op"
   | ["need", be, k, m, hd, r, x] =>
-    match cfg? be k m hd "1", parseNatList r, parseNatList x with
+    match cfg? cx be k m hd "1", parseNatList r, parseNatList x with
     | some (_, bk), some r, some x =>
       match fragmentsNeeded bk r x with
       | .ok l => s!"ok {natList l}"
@@ -90,25 +99,25 @@ def step (line : String) : String :=
     | some f => if f.length < Hdr.size then "bad-op" else toString (b2n (isInvalidHeader f))
     | none => "bad-op"
   | ["fraginv", be, k, m, hd, ct, frag] =>
-    match cfg? be k m hd ct, ofHex? frag with
+    match cfg? cx be k m hd ct, ofHex? frag with
     | some (inst, bk), some f =>
       if f.length < Hdr.size then "bad-op" else toString (b2n (isInvalidFragment (env false) bk inst f))
     | _, _ => "bad-op"
   | "stripe" :: be :: k :: m :: hd :: ct :: n :: frags =>
-    match cfg? be k m hd ct, n.toNat?, hexList frags with
+    match cfg? cx be k m hd ct, n.toNat?, hexList frags with
     | some (inst, bk), some n, some fr =>
       if fr.length != n || fr.any (·.length < Hdr.size) then "bad-op" else
       toString (verifyStripeMetadata bk inst fr)
     | _, _, _ => "bad-op"
   | ["size", be, k, m, hd, len] =>
-    match cfg? be k m hd "1", len.toNat? with
+    match cfg? cx be k m hd "1", len.toNat? with
     | some (inst, bk), some len =>
       s!"{alignedSizeQ bk inst len} {fragmentSizeQ inst len} {minEncodeSizeQ bk inst}"
     | _, _ => "bad-op"
   | ["create", be, k, m, hd, w] =>
     match be.toInt?, k.toInt?, m.toInt?, hd.toInt?, w.toInt? with
     | some be, some k, some m, some hd, some w =>
-      match create availDefault be k m w hd 1 with
+      match create (availDefault cx) be k m w hd 1 with
       | .ok _ => "ok"
       | .error e => s!"err {e}"
     | _, _, _, _, _ => "bad-op"
@@ -150,16 +159,16 @@ def apiOfName : String → Option Api
   | "sizes" => some .sizes | "destroy" => some .destroy | "create_nullargs" => some .createNullArgs
   | "backend_available" => some .backendAvailable | _ => none
 
-def stepArgs (api be k m : String) (rest : List String) : String :=
+def stepArgs (cx : Bool) (api be k m : String) (rest : List String) : String :=
   match apiOfName api, be.toNat?, k.toNat?, m.toNat?, rest.mapM String.toInt? with
   | some api, some be, some k, some m, some a =>
     let hd := if be == 3 then 3 else m
-    match mkInst be k m hd 1 with
+    match mkInst cx be k m hd 1 with
     | none => "bad-op"
     | some (inst, bk) =>
       let e : ArgEnv := { k := k, m := m, aligned100 := alignedSizeQ bk inst 100,
                           frag100 := fragmentSizeQ inst 100, minEnc := minEncodeSizeQ bk inst,
-                          avail := availDefault }
+                          avail := availDefault cx }
       -- a negative backend id reaches the C code as a huge unsigned value
       let a' := a.map fun (x : Int) => if x < 0 then 4294967295 else x.toNat
       match argCheck e api a' with
@@ -176,8 +185,8 @@ structure HistState where
 
 def histData : Bytes := (List.range 29).map fun i => UInt8.ofNat (i * 11 + 3)
 
-def roundTrip (be k m hd : Nat) : Int :=
-  match mkInst be k m hd 2 with
+def roundTrip (cx : Bool) (be k m hd : Nat) : Int :=
+  match mkInst cx be k m hd 2 with
   | none => -1
   | some (inst, bk) =>
     match encode (env false) bk inst histData with
@@ -189,7 +198,7 @@ def roundTrip (be k m hd : Nat) : Int :=
       | .error (.rc e) => e
       | .error .crash => -99
 
-def histOp (st : HistState) (op : String) : HistState × Int :=
+def histOp (cx : Bool) (st : HistState) (op : String) : HistState × Int :=
   let chars := op.toList
   let kind := String.ofList (chars.take 1)
   let slot := (String.ofList ((chars.drop 1).take 1)).toNat?.getD 0
@@ -197,7 +206,7 @@ def histOp (st : HistState) (op : String) : HistState × Int :=
   if kind == "c" || kind == "f" then
     match (String.ofList (chars.drop 3)).splitOn ":" |>.mapM String.toInt? with
     | some [be, k, m, hd] =>
-      let (r', res) := st.reg.create availDefault be k m 0 hd 2
+      let (r', res) := st.reg.create (availDefault cx) be k m 0 hd 2
       if res > 0 then
         ({ reg := r', slots := st.slots.set slot res,
            shapes := (res, be.toNat, k.toNat, m.toNat, hd.toNat) :: st.shapes.filter (·.1 != res) }, res)
@@ -208,7 +217,7 @@ def histOp (st : HistState) (op : String) : HistState × Int :=
     ({ st with reg := r' }, res)
   else if kind == "u" then
     match st.reg.lookup desc, st.shapes.find? (·.1 == desc) with
-    | some _, some (_, be, k, m, hd) => (st, roundTrip be k m hd)
+    | some _, some (_, be, k, m, hd) => (st, roundTrip cx be k m hd)
     | _, _ => (st, -EBACKENDNOTAVAIL)
   else if kind == "q" then
     match st.reg.lookup desc with
@@ -216,13 +225,13 @@ def histOp (st : HistState) (op : String) : HistState × Int :=
     | none => (st, -EBACKENDNOTAVAIL)
   else (st, -12345)
 
-def stepHist (preset : String) (ops : String) : String :=
+def stepHist (cx : Bool) (preset : String) (ops : String) : String :=
   match preset.toInt? with
   | none => "bad-op"
   | some p =>
     let st0 : HistState := { reg := { Registry.init with next := p }, slots := [-1, -1, -1, -1], shapes := [] }
     let (_, outs) := (ops.splitOn ";").foldl (fun (acc : HistState × List Int) op =>
-      let (st', r) := histOp acc.1 op
+      let (st', r) := histOp cx acc.1 op
       (st', acc.2 ++ [r])) (st0, [])
     ",".intercalate (outs.map toString)
 
@@ -242,22 +251,24 @@ def stepFault (be op n : String) : String :=
     ",".intercalate (all.map toString) ++ s!" fault@{pos} held={if pos < 0 then (-1 : Int) else 0} end=0"
   | _, _, _ => "bad-op"
 
-def stepAll (line : String) : String :=
+def stepAll (cx : Bool) (line : String) : String :=
   match line.trimAscii.toString.splitOn " " with
   | ["ledger", be, k, m, hd, calls] => stepLedger be k m hd calls
   | ["fault", be, _, _, _, op, n] => stepFault be op n
   | ["pure", _] => "same"
-  | "args" :: api :: be :: k :: m :: rest => stepArgs api be k m rest
-  | ["hist", preset, ops] => stepHist preset ops
-  | _ => step line
+  | "conc" :: _ => "ok"
+  | "args" :: api :: be :: k :: m :: rest => stepArgs cx api be k m rest
+  | ["hist", preset, ops] => stepHist cx preset ops
+  | _ => step cx line
 
-partial def loop (h : IO.FS.Stream) (out : IO.FS.Stream) : IO Unit := do
+partial def loop (cx : Bool) (h : IO.FS.Stream) (out : IO.FS.Stream) : IO Unit := do
   let line ← h.getLine
   if line.isEmpty then return ()
-  out.putStrLn (stepAll line)
-  loop h out
+  out.putStrLn (stepAll cx line)
+  loop cx h out
 
 def main : IO Unit := do
   let out ← IO.getStdout
-  loop (← IO.getStdin) out
+  let cx := (← IO.getEnv "VERIF_ISAL").isSome
+  loop cx (← IO.getStdin) out
   out.flush
